@@ -1,7 +1,7 @@
 (* C20 -- inverse pairs: word codecs, SMDH bit tables, RGB565 expansion, Morton tiling, DIFI descriptor.
    All statements are about the kernels regenerated from the current source (Gen_tmd, Gen_smdh, Gen_difi). *)
 From Pyctr Require Import Base.Prelude Base.ListExt Base.PyInt Base.PySlice Base.PyStr Base.Sweep Base.Fields.
-From Pyctr Require Import Model.Codecs Proofs.CodecsProofs Model.Nand Proofs.NandProofs Model.CfgSave Proofs.CfgSaveProofs.
+From Pyctr Require Import Model.Codecs Proofs.CodecsProofs Model.Nand Proofs.NandProofs Model.CfgSave Proofs.CfgSaveProofs Model.AppTitle Proofs.AppTitleProofs.
 From Dyn Require Import Gen_tmd Gen_smdh Gen_difi.
 
 (* ---- title-version and content-type flag words (finite domains: swept completely, bound in the statement) ---- *)
@@ -207,6 +207,21 @@ Example C20_config_save_nonvacuous :
   Forall (wf_blk ex_known) ex_blocks /\ NoDup (map b_id ex_blocks) /\
   is_ok (cfg_bytes ex_blocks) = true /\ (do raw <- cfg_bytes ex_blocks; cfg_load ex_known raw) = Ok ex_blocks.
 Proof. exact cfg_nonvacuous. Qed.
+
+(* ---- the SMDH application title: three UTF-16LE strings (lists of code points) in NUL-padded fields of 0x80 / 0x100 / 0x80 bytes.
+   Parsing what was serialised gives back the strings, for all strings of scalar values (BMP or not) that fit their field and neither
+   begin nor end with NUL (which strip() removes); decode-of-encode holds for every string of scalar values ---- *)
+Theorem C20_utf16le_roundtrip : forall s, Forall scalar s -> utf16le_decode (utf16le_encode s) = Some s.
+Proof. exact utf16le_roundtrip. Qed.
+Theorem C20_apptitle_roundtrip : forall t,
+  wf_field 0x80 (short_desc t) -> wf_field 0x100 (long_desc t) -> wf_field 0x80 (publisher t) -> title_parse (title_bytes t) = Ok t.
+Proof. exact title_roundtrip. Qed.
+Print Assumptions C20_utf16le_roundtrip.
+Print Assumptions C20_apptitle_roundtrip.
+Example C20_apptitle_nonvacuous :
+  let t := mkTitle [0x1F600; 97] (repeat 0x3042 128) [] in
+  wf_field 0x80 (short_desc t) /\ wf_field 0x100 (long_desc t) /\ wf_field 0x80 (publisher t) /\ title_parse (title_bytes t) = Ok t.
+Proof. exact title_nonvacuous. Qed.
 
 (* ---- the NAND NCSD header (model and proof shared with C13): parse then serialise gives back the 512 bytes ---- *)
 Theorem C20_ncsd_header_roundtrip : forall sig mu tbl unk mbr h,
